@@ -21,11 +21,11 @@ class Outside(Exception):
 
 TOK = re.compile(r"""
     (?P<ws>\s+|//[^\n]*|/\*.*?\*/)
-  | (?P<num>0x[0-9a-fA-F_]+(?:u8|u16|u32|u64|u128|usize)?|\d[\d_]*(?:u8|u16|u32|u64|u128|usize)?)
+  | (?P<num>0x[0-9a-fA-F_]+(?:u8|u16|u32|u64|u128|usize)?|0b[01_]+(?:u8|u16|u32|u64|u128|usize)?|\d[\d_]*(?:u8|u16|u32|u64|u128|usize)?)
   | (?P<life>'[a-z_]+\b(?!'))
   | (?P<id>[A-Za-z_][A-Za-z0-9_]*)
   | (?P<str>"(?:[^"\\]|\\.)*")
-  | (?P<op>::|->|=>|==|!=|<=|>=|&&|\|\||\.\.=|\.\.|\+=|-=|[-+*/%&|!<>=.,;:(){}\[\]?#@])
+  | (?P<op>::|->|=>|==|!=|<<|<=|>=|&&|\|\||\.\.=|\.\.|\+=|-=|[-+*/%&|!<>=.,;:(){}\[\]?#@])
 """, re.S | re.X)
 
 
@@ -71,7 +71,7 @@ def lit_int(s):
     return int(s, 0)
 
 
-BINPREC = {"||": 1, "&&": 2, "==": 3, "!=": 3, "<": 3, ">": 3, "<=": 3, ">=": 3, "|": 4, "&": 5,
+BINPREC = {"||": 1, "&&": 2, "==": 3, "!=": 3, "<": 3, ">": 3, "<=": 3, ">=": 3, "|": 4, "&": 5, "<<": 5.5,
            "+": 6, "-": 6, "*": 7, "/": 7, "%": 7}
 
 
